@@ -242,7 +242,8 @@ def scenario(rng, ctxs, kinds=None, private_keys=False):
     if kind == 'path':
         return path_syscall(rng)
     if kind == 'newthread':
-        return newthread_pair(ctxs['tid'] * 1000 + rng.randrange(1, 9), ctxs['pid'] + rng.randrange(0, 3),
+        child = ctxs['tid'] * 1000 + rng.randrange(1, 9) if 'child_pool' not in ctxs else rng.choice(ctxs['child_pool'])
+        return newthread_pair(child, ctxs['pid'] + rng.randrange(0, 3),
                               rng.choice(domain.TEXTS)[:32], rng.choice((NONE, ALL)))
     if kind == 'exec':
         return exec_pair(ctxs['pid'] + rng.randrange(0, 3), rng.choice(domain.TEXTS)[:32], rng.choice((NONE, ALL)))
